@@ -70,6 +70,21 @@ MISSED = {
  "C02-m8": "rolls were compared by value; added float / Fraction twins of integer pools enumerated next to them and the outcome types of the rolls",
  "C15-m7": "draws only removed existing cards; added non-positive amounts for outcomes the histogram does not have, visited first, also inside failing requests",
  "C15-m8": "no two population members were equal with different outcome types; added re-typed copies (float / Fraction / bool) and comparisons, hashing and grouping across the whole population",
+ "C04-m9": "large repetition counts used Python-int counts; half of them now give the counts as numpy.int64 (h.total**n must stay exact)",
+ "C05-m10": "bare outcomes and pairs were never mixed in one iterable; added that (undocumented but accepted) form with an outcome spelled both ways - counts and total are compared, the stored order is not",
+ "C08-m10": "substitute was only called on histograms; a third of the cases now go through P(h).substitute",
+ "C10-m10": "outcomes were numbers; added pools with unorderable (symbolic) outcomes: one question per die and the sampling distribution against brute force (outside the Coq model's outcome domain, counted as skipped there)",
+ "C12-m10": "filter predicates looked at values only; the MODEL was extended with provenance-aware filters (RFilterBy: one value predicate per source, proofs in RollerP / RollRecordP) and trees now contain them",
+ "C13-m4": "(regression of the generator after round 3) corpus entries: == between representation twins followed by lowest_terms of the right operand",
+ "C13-m9": "an n was never asked again after other n on the same object; sweeps now come back to an earlier n",
+ "C13-m10": "relabelled results were never reduced after the receiver had been compared; added umap (abs, parity, halving, negation) followed by lowest_terms / == / hash / set size of the result, with definitional expectations",
+ "C15-m9": "the dict a histogram was built from was dropped at once; the caller now keeps and modifies it afterwards",
+ "C15-m10": "pools were never compared with equal pools of differently scaled / typed dice; added such twin pools and comparisons from both sides, membership and index",
+ "C16-m9": "stdev was compared with an absolute tolerance of 1e-9, which hides tiny positive variances; the comparison is now relative",
+ "C17-m10": "randbytes was called 4 times per case; a leading zero byte occurs once in 256 draws - now 4500 draws",
+ "C18-m6": "(regression of the generator) added operands with the same number of outcomes and the same end points but different outcomes in between + corpus entries",
+ "C18-m10": "only the returned histogram was observed; the receiver and a histogram sharing its mapping must read as before after every operation",
+ "C19-m9": "rejected calls were only made at top level; added mechanics whose nested callback makes the rejected call (7 guards), the enclosing callback catches the exception and continues with another nested evaluation (model: RRaise inside RTry)",
  "C16-m3": "histograms were built from mappings only; added construction from reversed pairs and from bare outcomes mixed with pairs (stored order not ascending)",
 }
 
